@@ -14,7 +14,8 @@ def config(quick):
         sa.update({"Level": [(2, 0), (7, 0)], "JSONMode": [(1, 0)]})
     return dict(
         max_loggers=2, init_level=5, names=["a"], bool_lists=BOOL_LISTS, layouts=[""],
-        opt_lists=[[], [opt("Level", 2)], [opt("JSONMode", 1), opt("Attrs", 2, 7)], [opt("Writer", 1)]],
+        # (the level option with value 0 = Panic: the zero value is a level like any other)
+        opt_lists=[[], [opt("Level", 2)], [opt("JSONMode", 1), opt("Attrs", 2, 7)], [opt("Writer", 1)], [opt("Level", 0)]],
         setter_args=sa, acts=["Set", "With", "New", "NewDetached"], probe_sevs=[4, 2], max_list=1,
     )
 
@@ -93,7 +94,7 @@ def rand_config():
     }
     return dict(
         max_loggers=3, init_level=5, names=["a", "b", "c"], bool_lists=BOOL_LISTS, layouts=["", "15:04:05"],
-        opt_lists=[[], [opt("Level", 2)], [opt("JSONMode", 1), opt("Attrs", 2, 7)], [opt("Writer", 1)],
+        opt_lists=[[], [opt("Level", 2)], [opt("JSONMode", 1), opt("Attrs", 2, 7)], [opt("Writer", 1)], [opt("Level", 0)],
                    [opt("ColorMode", 3), opt("Level", 5), opt("AddWriter", 2)], [opt("ErrorWriter", 3), opt("UTCMode", 1)]],
         setter_args=sa, acts=["Set", "With", "New", "NewDetached", "PkgSetLevel", "SetDefault", "Flags", "PkgLevel", "PkgSkip"], probe_sevs=[4, 2],
         flag_sets=FLAG_SETS,
